@@ -28,8 +28,8 @@ META = dict(
     text="Lean theorems (PPProofs/Props/C19.lean) over a statement-by-statement model of "
          "reset_pyparsing_context.save/restore and of every public setter with its guards. FULL STRENGTH: "
          "restore_total_and_exact / live_restore_total_and_exact (for every entry state reachable from import and every "
-         "well-nested finite command sequence incl. force=True switches, bad capacities, unknown flag names and nested "
-         "contexts: no __enter__/__exit__ raises, every listed setting and the recursion_memos object are back to their "
+         "well-nested finite command sequence incl. force=True switches, bad capacities, unknown flag names, nested "
+         "contexts, re-entered context objects, exit through ctx.copy() and repeated restore(): no __enter__/__exit__ raises, every listed setting and the recursion_memos object are back to their "
          "entry values, every built-in's whiteChars is back, enclosing contexts untouched), restore_exact (one context, arbitrary state inside), new_expr_after_exit, "
          "packrat_lr_exclusive + packrat_lr_never_both + parse_selector_follows_packrat (each setter refuses while the "
          "other mode is on unless force=True; never both on, and _parse is the caching function exactly while packrat is "
@@ -922,7 +922,8 @@ def run(ctx):
             by_atom[a] = (c, p, size)
 
     def prio(a):
-        return (0 if "raises" in a else 1 if a.startswith("not-restored") else 2, a)
+        return (0 if a.startswith(("exit-raises", "enter-raises")) else 1 if a.startswith("not-restored")
+                else 2 if a.startswith("restore-again") else 3, a)
 
     for a in sorted(by_atom, key=prio)[:6]:
         c, p, _ = by_atom[a]
